@@ -590,27 +590,23 @@ def run_case(case, idx, R, mode):
 
 
 def floors(tier):
-    if tier == "quick":
-        return {
-            "evaluations": 250, "distinct_nontrivial": 250, "forms_judged": 500, "forms_ok": 250,
-            "bench:ibench": 80, "bench:asmbench": 80, "arch:zen1": 40, "arch:tx2": 40, "arch:n1": 40,
-            "mode:api": 200, "mode:cli": 10, "mode:subprocess": 2,
-            "tp:must-snap": 150, "tp:must-null": 40, "tp:dont-care": 10, "lt:must-snap": 150, "lt:must-null": 30,
-            "mclass:fresh": 100, "mclass:existing": 40, "mclass:tplt": 40, "case:upper": 80, "case:lower": 150,
-            "corrupt:none": 40, "corrupt:blank-replaced": 3, "corrupt:blank-deleted": 3, "corrupt:line-inserted": 3, "corrupt:final-blank-missing": 3,
-            "forms_after_bad_block": 5, "order:interleaved": 15,
-            "set:operand_codes": 40, "set:snapped_reciprocals": 10,
-        }
-    return {
-        "evaluations": 4000, "distinct_nontrivial": 4000, "forms_judged": 9000, "forms_ok": 4500,
-        "bench:ibench": 1500, "bench:asmbench": 1500, "arch:zen1": 900, "arch:tx2": 900, "arch:n1": 900,
-        "mode:api": 3500, "mode:cli": 100, "mode:subprocess": 20,
-        "tp:must-snap": 3000, "tp:must-null": 800, "tp:dont-care": 200, "lt:must-snap": 3000, "lt:must-null": 600,
-        "mclass:fresh": 2000, "mclass:existing": 800, "mclass:tplt": 800, "case:upper": 1500, "case:lower": 3000,
-        "corrupt:none": 800, "corrupt:blank-replaced": 60, "corrupt:blank-deleted": 60, "corrupt:line-inserted": 60, "corrupt:final-blank-missing": 60,
-        "forms_after_bad_block": 100, "order:interleaved": 300,
-        "set:operand_codes": 60, "set:snapped_reciprocals": 10,
+    q = {
+        "evaluations": 160, "distinct_nontrivial": 160, "forms_judged": 400, "forms_ok": 330,
+        "bench:ibench": 60, "bench:asmbench": 60, "arch:zen1": 50, "arch:tx2": 50, "arch:n1": 50,
+        "mode:api": 150, "mode:cli": 15, "mode:subprocess": 2,
+        "tp:must-snap": 220, "tp:must-null": 70, "tp:dont-care": 35, "tp:no-line": 30,
+        "lt:must-snap": 250, "lt:must-null": 50, "lt:dont-care": 25, "lt:no-line": 30,
+        "mclass:fresh": 170, "mclass:existing": 100, "mclass:tplt": 80, "mclass:repeat": 25, "case:upper": 150, "case:lower": 250,
+        "corrupt:none": 45, "corrupt:blank-replaced": 4, "corrupt:blank-deleted": 4, "corrupt:line-inserted": 4, "corrupt:final-blank-missing": 4,
+        "forms_after_bad_block": 15, "order:interleaved": 20, "order:grouped": 50,
     }
+    if tier != "quick":
+        q = {k: v * 20 for k, v in q.items()}
+        q["mode:subprocess"] = 20
+        q["mode:cli"] = 120
+    q["set:operand_codes"] = 60 if tier == "quick" else 78
+    q["set:snapped_reciprocals"] = 10
+    return q
 
 
 def plan(tier, seed):
